@@ -136,41 +136,66 @@ class RngSeam:
 
 
 class ExpansionRecorder:
-    """Wraps `partition.make_children` of one partition *instance* and records every
-    call: (parent, newlayer, parent_was_leaf, old_children, round)."""
+    """Records every make_children call made while it is the active recorder:
+    (partition, parent, newlayer, parent_was_leaf, old/new children, round).
+    The five partition classes' make_children are wrapped once per process *in memory*
+    (class attribute, nothing in /repo changes); instances stay free of closures so that
+    deepcopy of an algorithm object is safe."""
+
+    ACTIVE = None
+    _installed = False
 
     def __init__(self):
-        self.calls = []  # all calls of this execution
+        self.calls = []
         self.round = 0
-        self.wrapped = []
 
-    def attach(self, partition, tag=None):
-        if getattr(partition, "_xmc_wrapped", False):
+    def activate(self):
+        ExpansionRecorder.install()
+        ExpansionRecorder.ACTIVE = self
+
+    def attach(self, partition, tag=None):  # kept for API compatibility: nothing to do
+        return
+
+    @classmethod
+    def install(cls):
+        if cls._installed:
             return
-        orig = partition.make_children
-        rec = self
+        from PyXAB.partition.BinaryPartition import BinaryPartition
+        from PyXAB.partition.RandomBinaryPartition import RandomBinaryPartition
+        from PyXAB.partition.DimensionBinaryPartition import DimensionBinaryPartition
+        from PyXAB.partition.KaryPartition import KaryPartition
+        from PyXAB.partition.RandomKaryPartition import RandomKaryPartition
 
-        def make_children(parent, newlayer=False):
-            was_leaf = parent.get_children() is None
-            old = parent.get_children()
-            orig(parent, newlayer=newlayer)
-            rec.calls.append(
-                {
-                    "partition": partition,
-                    "tag": tag,
-                    "parent": parent,
-                    "newlayer": bool(newlayer),
-                    "was_leaf": was_leaf,
-                    "old_children": old,
-                    "children": parent.get_children(),
-                    "round": rec.round,
-                    "depth_before": parent.get_depth(),
-                }
-            )
+        for pc in (BinaryPartition, RandomBinaryPartition, DimensionBinaryPartition, KaryPartition, RandomKaryPartition):
+            orig = pc.__dict__.get("make_children")
+            if orig is None:
+                raise HarnessError("cannot observe: %s does not define make_children" % pc.__name__)
 
-        partition.make_children = make_children
-        partition._xmc_wrapped = True
-        self.wrapped.append(partition)
+            def wrap(orig):
+                def make_children(self, parent, newlayer=False):
+                    rec = ExpansionRecorder.ACTIVE
+                    if rec is None:
+                        return orig(self, parent, newlayer=newlayer)
+                    old = parent.get_children()
+                    orig(self, parent, newlayer=newlayer)
+                    rec.calls.append(
+                        {
+                            "partition": self,
+                            "parent": parent,
+                            "newlayer": bool(newlayer),
+                            "was_leaf": old is None,
+                            "old_children": old,
+                            "children": parent.get_children(),
+                            "round": rec.round,
+                            "depth_before": parent.get_depth(),
+                        }
+                    )
+
+                make_children.__wrapped__ = orig
+                return make_children
+
+            pc.make_children = wrap(orig)
+        cls._installed = True
 
     def since(self, n):
         return self.calls[n:]
